@@ -1,7 +1,7 @@
 (* Proofs/ConnHandlerSem.v -- per-address concurrency bound: for every address a,
    semaphore value + tasks inside the async-with body + woken waiters = 5, in every reachable state. *)
 From Coq Require Import List Bool Arith Lia.
-From MV Require Import Model.ConnHandler Proofs.ConnHandlerBase.
+From MV Require Import Model.ConnHandler Proofs.ConnHandlerBase Proofs.ConnHandlerPair.
 Import ListNotations.
 
 Definition in_region (p : cpc) : bool :=
@@ -241,11 +241,14 @@ Qed.
 Lemma rv_release_some : forall c S p a u,
   RV c S p (Some a) u -> p <> PSem WPending -> 1 <= u a -> RV c (release_of S c) p (Some a) (drop a u).
 Proof.
-  apply rv_wake_next; auto. apply rv_sem_inc; auto. simpl. rewrite Nat.eqb_refl. Show. lia.
-  apply rv_wake_next; auto. apply rv_sem_inc; auto. simpl. rewrite Nat.eqb_refl. lia.
+  intros c S p a u H NP U. unfold release_of. assert (Ad : c_addr (getc S c) = Some a) by (destruct H as (_ & _ & Ad & _); exact Ad).
+  rewrite Ad. unfold sem_release.
+  apply rv_wake_next; auto.
+  - apply rv_sem_inc; auto.
+  - simpl. rewrite Nat.eqb_refl. lia.
 Qed.
 Lemma rv_release_none : forall c S p u, RV c S p None u -> RV c (release_of S c) p None u.
-Proof. intros c S p u H. unfold release_of. assert (Ad : c_addr (getc S c) = None) by apply H. rewrite Ad. auto. Qed.
+Proof. intros c S p u H. unfold release_of. assert (Ad : c_addr (getc S c) = None) by (destruct H as (_ & _ & Ad & _); exact Ad). rewrite Ad. auto. Qed.
 
 Lemma rv_finish : forall c S p ao u x k, RV c S p ao u -> RV c (finish S c x k) (PDone x) ao u.
 Proof.
@@ -266,10 +269,10 @@ Definition Fin (c : nat) (S : st) : Prop :=
 
 Lemma fin_JJ : forall c S, Fin c S -> JJ S.
 Proof.
-  intros c S (p & ao & u & (L & P & Ad & R & Q & Z) & C0 & U). split; [|split]; auto.
+  intros c S (p & ao & u & H & C0 & U). destruct H as (L & P & Ad & R & Q & Z). split; [|split]; auto.
   - intros b. unfold SS. rewrite (total_split b _ c L). fold (getc S c). unfold wt. rewrite P, Ad, <- U.
     specialize (R b). unfold rest in R. lia.
-  - destruct (Nat.eq_dec c 0); auto. subst. rewrite Ad. auto.
+  - destruct (Nat.eq_dec c 0) as [e|n]; auto. rewrite e in Ad. rewrite Ad. auto.
 Qed.
 
 Lemma fin_rv : forall c S p ao u, RV c S p ao u -> (c = 0 -> ao = None) -> (forall b, u b = wtv b ao p) -> Fin c S.
@@ -300,3 +303,247 @@ Proof. unfold sem_locked. intros S a H. apply orb_false_iff in H as [H _]. apply
 
 Lemma in_remove1 : forall c q d, In d (remove1 c q) -> In d q.
 Proof. induction q; simpl; intros; auto. destruct (Nat.eqb a c); simpl in *; intuition. Qed.
+
+Ltac svr :=
+  repeat match goal with
+  | |- RV _ _ _ _ _ => eassumption
+  | |- RV _ (finish _ _ _ _) _ _ _ => eapply rv_finish
+  | |- RV _ (hook_at _ _ _ _) _ _ _ => eapply rv_hook_at
+  | |- RV _ (hc_read _ _) _ _ _ => eapply rv_hc_read
+  | |- RV _ (enter_sem_body _ _) _ _ _ => eapply rv_enter
+  | |- RV _ (goto _ _ _) _ _ _ => eapply rv_goto
+  | |- RV _ (release_of _ _) _ (Some _) _ => eapply rv_release_some
+  | |- RV _ (release_of _ _) _ None _ => eapply rv_release_none
+  | |- RV _ (server_event _ _) _ _ _ => eapply rv_server_event
+  | |- RV _ (drain_writers _) _ _ _ => eapply rv_drain
+  | |- RV _ (wake_next _ _) _ _ _ => eapply rv_wake_next
+  | |- RV _ (set_sem ?S ?a (semval ?S ?a - 1) _) _ _ _ => eapply rv_sem_dec
+  | |- RV _ (set_sem ?S ?a (semval ?S ?a + 1) _) _ _ _ => eapply rv_sem_inc
+  | |- RV _ (set_sem ?S ?a (semval ?S ?a) _) _ _ _ => eapply rv_sem_queue
+  | |- RV _ (setc _ _ (with_io (with_state _ _ _) _ _)) _ _ _ => eapply rv_setc_io_state
+  | |- RV _ (setc _ _ (with_io _ _ _)) _ _ _ => eapply rv_setc_io
+  | |- RV _ (setc _ _ (with_err _)) _ _ _ => eapply rv_setc_err
+  | |- RV _ (setc _ _ (with_state _ _ _)) _ _ _ => eapply rv_setc_state
+  | |- RV _ (setc _ _ (with_wake _ _ _)) _ _ _ => eapply rv_setc_wake
+  | |- RV _ (setc _ _ (with_pc _ _)) _ _ _ => eapply rv_setc_pc
+  | |- semval _ _ <> 0 => apply sem_locked_false; assumption
+  | |- forall d, In d (_ ++ [_]) -> _ => let d := fresh "d" in let I := fresh "I" in intros d I; apply in_app_or in I; destruct I as [I|[I|[]]]; auto
+  | |- forall d, In d (remove1 _ _) -> _ => let d := fresh "d" in let I := fresh "I" in intros d I; right; eapply in_remove1; eauto
+  | |- _ <> _ => discriminate
+  | EV : (0 <? ?v) = true |- 1 <= ?v => apply Nat.ltb_lt in EV; exact EV
+  | |- 1 <= _ => solve [unfold wtv, drop, bump; simpl; rewrite ?Nat.eqb_refl; simpl; lia]
+  end.
+
+Ltac ucheck :=
+  intros; unfold bump, drop, wtv; simpl;
+  repeat match goal with |- context [Nat.eqb ?x ?y] => destruct (Nat.eqb_spec x y); subst; simpl end;
+  try congruence; try lia; auto.
+
+Ltac fin :=
+  match goal with Ea : c_addr _ = ?ao |- _ => eapply (fin_rv _ _ _ ao) end; [svr | first [assumption | intros; congruence] | try solve [ucheck]].
+
+Lemma jj_rv0 : forall s c, JJ s -> c < length (conns s) ->
+  RV c s (c_pc (getc s c)) (c_addr (getc s c)) (fun b => wtv b (c_addr (getc s c)) (c_pc (getc s c))).
+Proof.
+  intros s c (J1 & J2 & J3) L. repeat split; auto.
+  intros b. specialize (J1 b). unfold SS in J1. rewrite (total_split b _ c L) in J1. unfold rest.
+  fold (getc s c) in J1. unfold wt in J1. lia.
+Qed.
+
+Ltac finL := match goal with Ea : c_addr _ = ?ao |- _ => eapply (fin_hc_after_loop _ _ _ ao) end; [svr | discriminate | first [assumption | intros; congruence] | try solve [ucheck]].
+Ltac finC := match goal with Ea : c_addr _ = ?ao |- _ => eapply (fin_hc_cleanup _ _ _ ao) end; [svr | first [assumption | intros; congruence] | try solve [ucheck]].
+Lemma jj_run_conn : forall s c, JJ s -> c < length (conns s) -> JJ (run_conn s c).
+Proof.
+  intros s c J L. apply (fin_JJ c). pose proof (jj_rv0 s c J L) as H0.
+  assert (C0 : c = 0 -> c_addr (getc s c) = None) by (intros; subst; apply J).
+  unfold run_conn.
+  destruct (c_addr (getc s c)) as [a|] eqn:Ea; destruct (c_pc (getc s c)) eqn:Epc; destruct (c_cf (getc s c)) eqn:Ecf.
+  all: try solve [fin].
+  - destruct (Nat.eqb_spec c 0) as [e|ne]; [discriminate (C0 e)|fin].
+  - match goal with |- context [if ?k then setc _ _ (with_err _) else _] => destruct k end;
+    (match goal with |- context [c_err (getc ?S c)] => destruct (c_err (getc S c)) end; [fin|]);
+    (match goal with |- context [c_addr (getc ?S c)] =>
+       assert (EA : c_addr (getc S c) = Some a) by
+         (repeat (rewrite getc_setc_same; [|rewrite ?len_setc; auto]); simpl; auto); rewrite EA end);
+    (match goal with |- context [sem_locked ?S ?a] => destruct (sem_locked S a) eqn:EL end).
+    all: try solve [fin].
+  - destruct w; try solve [fin].
+  - destruct w; try solve [fin].
+    match goal with |- context [Nat.ltb 0 ?v] => destruct (Nat.ltb 0 v) eqn:EV end; try solve [fin].
+  - destruct (c_wk (getc s c)) as [[| | |[|]]|]; fin.
+  - finL.
+  - destruct (c_wk (getc s c)) as [[| |[| |]|]|]; try solve [fin]; finL.
+  - finC.
+  - destruct (Nat.eqb c 0); fin.
+  - match goal with |- context [if ?k then setc _ _ (with_err _) else _] => destruct k end;
+    (match goal with |- context [c_err (getc ?S c)] => destruct (c_err (getc S c)) end; [fin|]);
+    (match goal with |- context [c_addr (getc ?S c)] =>
+       assert (EA : c_addr (getc S c) = None) by
+         (repeat (rewrite getc_setc_same; [|rewrite ?len_setc; auto]); simpl; auto); rewrite EA end); fin.
+  - destruct (c_wk (getc s c)) as [[| | |[|]]|]; fin.
+  - finL.
+  - destruct (c_wk (getc s c)) as [[| |[| |]|]|]; try solve [fin]; finL.
+  - finC.
+Qed.
+
+
+(* ---------------------------------------------------------------- the other steps *)
+Lemma JJ_same : forall s s', conns s' = conns s -> semval s' = semval s -> semq s' = semq s -> JJ s -> JJ s'.
+Proof.
+  intros s s' C V Q (J1 & J2 & J3). unfold JJ, SS, QQ, getc in *. rewrite C, V, Q. auto.
+Qed.
+
+Lemma wt_noaddr : forall b x, c_addr x = None -> wt b x = 0.
+Proof. intros. unfold wt, wtv. rewrite H. auto. Qed.
+
+Lemma JJ_setc0 : forall s x, HasClient s -> c_addr x = None -> JJ s -> JJ (setc s 0 x).
+Proof.
+  intros s x L A (J1 & J2 & J3). split; [|split].
+  - intros b. specialize (J1 b). unfold SS in *. simpl.
+    pose proof (total_upd b (conns s) 0 x L) as T. fold (getc s 0) in T.
+    rewrite (wt_noaddr b x A), (wt_noaddr b _ J3) in T. lia.
+  - apply QQ_setc; auto. congruence.
+  - rewrite getc_setc_same; auto.
+Qed.
+
+Definition J2 (s : st) : Prop := JJ s /\ HasClient s.
+
+Lemma hc_frame : forall s s', frame s s' -> HasClient s -> HasClient s'.
+Proof. unfold HasClient. intros. pose proof (frame_len _ _ H). lia. Qed.
+
+Lemma j2_frame : forall s s', frame s s' -> J2 s -> J2 s'.
+Proof. intros s s' F [J H]. split; eauto using JJ_frame, hc_frame. Qed.
+
+Lemma j2_same : forall s s', conns s' = conns s -> semval s' = semval s -> semq s' = semq s -> J2 s -> J2 s'.
+Proof. intros s s' C V Q [J H]. split. eapply JJ_same; eauto. unfold HasClient in *. rewrite C. auto. Qed.
+
+Lemma j2_setc0 : forall s x, c_addr x = None -> J2 s -> J2 (setc s 0 x).
+Proof. intros s x A [J H]. split. apply JJ_setc0; auto. unfold HasClient in *. rewrite len_setc. auto. Qed.
+
+Lemma j2_run_main : forall s, J2 s -> J2 (run_main s).
+Proof.
+  intros s J. assert (A0 : c_addr (getc s 0) = None) by apply J. unfold run_main. destruct (mainpc s).
+  - eapply j2_same; [| | |exact J]; reflexivity.
+  - match goal with |- context [client_err ?S1] => set (s1 := S1) end.
+    assert (J1 : J2 s1) by (eapply j2_same; [| | |exact J]; reflexivity).
+    destruct (client_err s1).
+    + eapply j2_same; [| | |apply (j2_setc0 s1 (with_io (getc s1 0) false WClosed)); auto]; reflexivity.
+    + assert (J3 : J2 (server_event s1 LStart)) by (eapply j2_frame; eauto using frame_server_event).
+      eapply j2_same; [| | |eapply j2_setc0; [|exact J3]]; try reflexivity.
+      simpl. apply J3.
+  - eapply j2_same; [| | |exact J]; reflexivity.
+  - match goal with |- context [existsb c_entry (conns ?S0)] => set (s0 := S0) end.
+    assert (J0 : J2 s0) by (eapply j2_same; [| | |exact J]; reflexivity).
+    assert (J1 : J2 (cancel_all s0 (length (conns s)) 0)) by (eapply j2_frame; eauto using frame_cancel_all).
+    destruct (existsb c_entry (conns s0)).
+    + destruct (waited (conns s0) 0); (eapply j2_same; [| | |exact J1]; reflexivity).
+    + eapply j2_same; [| | |exact J0]; reflexivity.
+  - eapply j2_same; [| | |exact J]; reflexivity.
+  - auto.
+Qed.
+
+Lemma j2_run_hook : forall s k, J2 s -> J2 (run_hook s k).
+Proof.
+  intros s k J. unfold run_hook. destruct (geth s k); auto.
+  - apply (j2_same (server_event s (LHookDone k))); try reflexivity.
+    eapply j2_frame; [apply frame_server_event|exact J].
+Qed.
+
+Lemma psoft_flags : forall x k f b, psoft x (mkConn (c_addr x) (c_pc x) k f (c_task x) (c_entry x) (c_writer x) b (c_rd x) (c_wr x) (c_err x)).
+Proof. intros. unfold psoft; simpl; intuition. Qed.
+
+Lemma j2_step : forall s i s', step s i = Some s' -> J2 s -> J2 s'.
+Proof.
+  intros s i s' H J. destruct i; simpl in H.
+  - destruct t.
+    + destruct (mainpc s) eqn:E; try discriminate; destruct (mwk s); try discriminate; inversion H; subst;
+        (eapply j2_same; [| | |exact J]; reflexivity).
+    + destruct (_ && _ && _); inversion H; subst. eapply j2_frame; eauto. apply frame_setc. apply psoft_flags.
+    + destruct (geth s k) as [|[|]|]; try discriminate. destruct (k <? length (hooks s)); inversion H; subst.
+      eapply j2_same; [| | |exact J]; reflexivity.
+  - destruct (c_pc (getc s c)); try discriminate. destruct (_ && _); inversion H; subst.
+    eapply j2_frame; eauto. apply frame_setc. apply psoft_flags.
+  - destruct (c_pc (getc s c)); try discriminate. destruct (_ && _); inversion H; subst.
+    eapply j2_frame; eauto. apply frame_setc. apply psoft_flags.
+  - inversion H; subst. destruct (_ && _); auto. eapply j2_frame; eauto using frame_cancel.
+  - destruct (_ && _); inversion H; subst. eapply j2_frame; eauto. apply frame_setc. apply psoft_flags.
+  - destruct t.
+    + destruct (_ && _); inversion H; subst. apply j2_run_main; auto.
+    + destruct (conn_ready s c) eqn:R; simpl in H; [|discriminate].
+      destruct (Bool.eqb _ _); inversion H; subst. destruct J as [J HC].
+      assert (L : c < length (conns s)).
+      { unfold conn_ready in R. repeat (apply andb_true_iff in R as [R ?]). apply Nat.ltb_lt in R. auto. }
+      split. apply jj_run_conn; auto.
+      destruct (oframe_run_conn s c) as [OL _ _ _ _ _]. unfold HasClient in *. lia.
+    + destruct (_ && _); inversion H; subst. apply j2_run_hook; auto.
+Qed.
+
+Lemma j2_init : forall sc, J2 (init sc).
+Proof.
+  intros. split; [|unfold HasClient; simpl; lia]. split; [|split]; auto.
+  intros a d I. simpl in I. destruct I.
+Qed.
+
+Lemma j2_run : forall l s, J2 s -> J2 (run s l).
+Proof.
+  induction l; simpl; intros; auto. apply IHl. unfold step'. destruct (step s a) eqn:E; auto.
+  eapply j2_step; eauto.
+Qed.
+
+Theorem sem_invariant : forall sc l b, SS b (run (init sc) l) = 5.
+Proof. intros. destruct (j2_run l (init sc) (j2_init sc)) as [[J _] _]. apply J. Qed.
+
+(* number of tasks inside the async-with body for address b *)
+Definition in_body (b : nat) (x : conn) : bool :=
+  match c_addr x with Some a => Nat.eqb a b | None => false end && in_region (c_pc x).
+Definition open_count (b : nat) (s : st) : nat := length (filter (in_body b) (conns s)).
+
+Lemma open_le_total : forall b l, length (filter (in_body b) l) <= total b l.
+Proof.
+  induction l; simpl; auto. unfold in_body at 1. unfold wt at 1, wtv.
+  destruct (match c_addr a with Some a0 => Nat.eqb a0 b | None => false end); simpl; try lia.
+  destruct (in_region (c_pc a)); simpl; lia.
+Qed.
+
+Theorem at_most_five : forall sc l b, open_count b (run (init sc) l) <= 5.
+Proof.
+  intros. pose proof (sem_invariant sc l b) as H. unfold SS in H. unfold open_count.
+  pose proof (open_le_total b (conns (run (init sc) l))). lia.
+Qed.
+
+(* ---------------------------------------------------------------- open writers per address *)
+Definition addr_is (b : nat) (x : conn) : bool := match c_addr x with Some a => Nat.eqb a b | None => false end.
+Definition openw (b : nat) (x : conn) : bool := addr_is b x && match c_writer x with WOpen => true | _ => false end.
+Definition lostw (b : nat) (x : conn) : bool :=
+  addr_is b x && match c_pc x with PDone XLostConnectedHook => true | _ => false end.
+Definition open_writers (b : nat) (s : st) : nat := length (filter (openw b) (conns s)).
+Definition leaked (b : nat) (s : st) : nat := length (filter (lostw b) (conns s)).
+
+Lemma count_split : forall (f g h : conn -> bool) l,
+  Forall (fun x => f x = true -> g x = true \/ h x = true) l ->
+  length (filter f l) <= length (filter g l) + length (filter h l).
+Proof.
+  induction 1; simpl; auto. destruct (f x) eqn:F; simpl; [|destruct (g x), (h x); simpl; lia].
+  destruct (H eq_refl) as [G | G]; rewrite G; simpl; destruct (g x), (h x); simpl; lia.
+Qed.
+
+Lemma wok_open : forall b x, wok x -> openw b x = true -> in_body b x = true \/ lostw b x = true.
+Proof.
+  unfold wok, openw, in_body, lostw, addr_is. intros b x W H. apply andb_true_iff in H as [A O]. rewrite A. simpl.
+  destruct (c_writer x); try discriminate. destruct (c_pc x); simpl in *; auto; try (destruct W; discriminate).
+  destruct x0; simpl in *; auto; try discriminate; destruct W; discriminate.
+Qed.
+
+Theorem open_writers_bound : forall sc l b,
+  let s := run (init sc) l in open_writers b s <= 5 + leaked b s.
+Proof.
+  intros. pose proof (at_most_five sc l b) as H5. fold s in H5.
+  destruct (j2_run l (init sc) (j2_init sc)) as [(_ & _ & A0) HC]. fold s in A0, HC.
+  destruct (pairing_invariant sc l) as [I _]. fold s in I.
+  unfold open_writers, leaked, open_count in *.
+  assert (F : Forall (fun x => openw b x = true -> in_body b x = true \/ lostw b x = true) (conns s)).
+  { apply Forall_forall. intros x Hx. destruct (In_nth _ _ dconn Hx) as (i & Li & Ni). destruct i.
+    - intros O. unfold openw, addr_is in O. unfold getc in A0. rewrite <- Ni, A0 in O. discriminate.
+    - apply wok_open. rewrite <- Ni. apply (I (S i)). auto. }
+  pose proof (count_split _ _ _ _ F). lia.
+Qed.
